@@ -34,12 +34,13 @@ type c12Thread struct {
 }
 
 type c12Plan struct {
-	Workers int         `json:"workers"`
-	Threads []c12Thread `json:"threads"`
-	Cross   bool        `json:"cross,omitempty"`   // extra pair: A waits inside mutex x for a flag B sets inside mutex y
-	Kill    int         `json:"kill,omitempty"`    // >0: an extra thread is suspended by a debugger inside `mutex a` and then killed (StopThreads) after Kill-1 scheduling rounds
-	KillIn  int         `json:"kill_in,omitempty"` // nesting depth (same name) at which the killed thread is suspended
-	Console *c12Console `json:"console,omitempty"` // the program is the entry file of a cli/tool console (see c12ConsoleRun)
+	Workers     int         `json:"workers"`
+	Threads     []c12Thread `json:"threads"`
+	Cross       bool        `json:"cross,omitempty"`         // extra pair: A waits inside mutex x for a flag B sets inside mutex y
+	Kill        int         `json:"kill,omitempty"`          // >0: an extra thread is suspended by a debugger inside `mutex a` and then killed (StopThreads) after Kill-1 scheduling rounds
+	KillIn      int         `json:"kill_in,omitempty"`       // nesting depth (same name) at which the killed thread is suspended
+	DeclInMutex bool        `json:"decl_in_mutex,omitempty"` // sinks are declared inside mutex blocks and carry their own blocks inline
+	Console     *c12Console `json:"console,omitempty"`       // the program is the entry file of a cli/tool console (see c12ConsoleRun)
 }
 
 // c12Console: the console of cli/tool evaluates its entry file (a mutex block that
@@ -95,6 +96,7 @@ func c12Gen(r *simrt.RNG, tier string) interface{} {
 		p.Threads = append(p.Threads, th)
 	}
 	p.Cross = r.Bool(0.2)
+	p.DeclInMutex = r.Bool(0.15)
 	if r.Bool(0.1) {
 		p.Kill = 1 + r.Intn(6)
 		p.KillIn = r.Intn(3)
@@ -279,7 +281,11 @@ func c12Program(p *c12Plan) string {
 			}
 		}
 		fmt.Fprintf(&helpers, "func t%d() {\n%s    done(%d)\n}\n", ti, body.String(), ti)
-		if th.Sink {
+		if th.Sink && p.DeclInMutex {
+			// the sink is declared inside mutex blocks of all names and carries its blocks in
+			// its own body: being declared inside a block is not the same as running inside it
+			fmt.Fprintf(&helpers, "mutex a {\nmutex b {\nmutex c {\nsink sk%d\n    kindmatch [\"c12.t%d\"]\n{\n%s    done(%d)\n}\n}\n}\n}\n", ti, ti, body.String(), ti)
+		} else if th.Sink {
 			fmt.Fprintf(&helpers, "sink sk%d\n    kindmatch [\"c12.t%d\"]\n{\n    t%d()\n}\n", ti, ti, ti)
 		}
 	}
@@ -297,6 +303,9 @@ func c12Program(p *c12Plan) string {
 			helpers.WriteString("    leave(\"a\")\n    }\n")
 		}
 		helpers.WriteString("    done(-3)\n}\n")
+		// evaluated by the debugger (inject) on behalf of the suspended thread while the other
+		// threads go on: one more thread entering blocks of name b
+		helpers.WriteString("func injf() {\n    mutex b {\n        enter(\"b\")\n        let tmp := cntb\n        stall(2)\n        cntb := tmp + 1\n        leave(\"b\")\n    }\n    return 1\n}\n")
 	}
 	b.WriteString(helpers.String())
 	return b.String()
@@ -407,6 +416,7 @@ func c12Run(p *c12Plan) {
 	}
 	erp.Processor.Start()
 
+	injectedTotal := 0
 	var wg simsync.WaitGroup
 	evalThread := func(name, code string) {
 		wg.Add(1)
@@ -445,6 +455,13 @@ func c12Run(p *c12Plan) {
 			susp = dbgSuspended(dbg, "C12")
 		}
 		victimTid := susp[0]
+		for k := 0; k < p.KillIn+1 && p.Kill%2 == 0; k++ {
+			// (the expression runs in the command's goroutine under a thread id of the debugger)
+			simrt.Count("fault_inject_calls_function_with_mutex_block")
+			dbgCmd(dbg, "C12", fmt.Sprintf("inject %d zz injf()", victimTid))
+			injectedTotal++
+			simrt.Yield()
+		}
 		for i := 1; i < p.Kill; i++ {
 			simrt.Yield()
 		}
@@ -479,6 +496,7 @@ func c12Run(p *c12Plan) {
 			}
 		}
 	}
+	want["b"] += injectedTotal
 	names := []string{"a", "b", "c"}
 	sort.Strings(names)
 	for _, n := range names {
